@@ -660,7 +660,7 @@ HOT1 = {"fiber.flags", "fiber.frame", "fiber.stackstart", "fiber.stacktop", "fib
 HOT2 = {"def.flags", "def.slotcount", "def.arity", "def.min_arity", "def.max_arity", "def.constants_length",
         "def.bytecode_length", "def.environments_length", "def.defs_length", "def.symbolmap_length", "def.environment",
         "ref.index", "int64.value", "chan.closed", "rng.counter", "array.len", "tuple.len", "table.count", "struct.count",
-        "peg.const", "peg.seqlen", "peg.litlen", "peg.num"}
+        "peg.const", "peg.seqlen", "peg.litlen", "peg.num", "symbolmap.birth_pc", "symbolmap.death_pc", "symbolmap.slot"}
 
 
 def hot_instr(f):
